@@ -120,6 +120,21 @@ func hbSession(p *hsPlan, c vs.Chooser) []byte {
 	for _, b := range p.byz {
 		n := b.n
 		switch b.kind {
+		case "unsolicited-ack":
+			// acknowledgements of things the server never sent: PING ACKs with
+			// boundary and arbitrary opaque data, a SETTINGS ACK
+			for i := 0; i < 1+n%6; i++ {
+				switch (b.a + i) % 4 {
+				case 0:
+					fr.WritePing(true, [8]byte{})
+				case 1:
+					fr.WritePing(true, [8]byte{0xff, 0xff, 0xff, 0xff, 0xff, 0xff, 0xff, 0xff})
+				case 2:
+					fr.WritePing(true, [8]byte{byte(b.b), byte(b.b >> 8), byte(i)})
+				default:
+					fr.WriteSettingsAck()
+				}
+			}
 		case "flood-ping":
 			for i := 0; i < n*40; i++ {
 				fr.WritePing(false, [8]byte{byte(i), byte(i >> 8), 7})
@@ -174,10 +189,17 @@ func hbSession(p *hsPlan, c vs.Chooser) []byte {
 				flags := Flags([]byte{0, 0x8, 0x20, 0x28, 0x2c, 0x24, 0x0c, 0x4, 0x1, 0x5, 0x9, 0xff}[next(12)])
 				l := []int{0, 1, 2, 3, 4, 5, 6, 7, 8, 9, 12, 20}[next(12)]
 				pl := make([]byte, l)
+				fill := next(4) // payload octets: all zero, all ones, or arbitrary
 				for k := range pl {
-					pl[k] = byte(next(256))
+					switch fill {
+					case 0:
+					case 1:
+						pl[k] = 0xff
+					default:
+						pl[k] = byte(next(256))
+					}
 				}
-				if l > 0 {
+				if l > 0 && fill >= 2 {
 					cand := []int{0, l - 1, l, l - 2, l - 5, l - 6, l - 7, 255, l + 1}[next(9)]
 					if cand >= 0 && cand < 256 {
 						pl[0] = byte(cand)
